@@ -80,7 +80,7 @@ def record_disagreement(prop, rec):
         return ""  # the model itself says the output depends on map iteration order here
     if rec.get("bytes_eq") is False:
         return "-fmt noop bytes differ between model and real moq"
-    if m.get("gf") not in (None, "eq"):
+    if m.get("gf") not in (None, "eq", "eq-code"):
         return "structured model (genFile/printFile) no longer matches the regenerated template"
     return ""
 
